@@ -25,7 +25,8 @@ RULE = ('(1) exhaustive: every history of <= 4 appends over a 7-item alphabet of
         'does not occur in any node of that branch, computed by walking the nodes; and every witness step -- a step that consumes '
         '(ticks) a quantified node and instantiates it with a constant not in that node, or consumes a modal node / is the Serial rule '
         'and adds an access node leading out of the node\'s world -- uses a constant / world that did not occur on the branch before '
-        'the step, whether or not the rule asked the branch for it. Non-trivial = a history in which '
+        'the step, whether or not the rule asked the branch for it; (4) every quantifier shape (quantifier x negated x designation) per logic on a '
+        'hand-made branch where a constant already occurs -- in modal logics also at another world than the shape. Non-trivial = a history in which '
         'a constant that sorts before an earlier one is appended, or a copy followed by divergent appends; or a proof '
         'that instantiates at least one witness. Distinct by history / (logic, argument).')
 ASSUMPTIONS = ['the walk over node sentences (vf/ast.py from_lib + constants) is the reference for "occurs on the branch"']
@@ -386,6 +387,8 @@ def run_proofs(shard, acc):
     prof = gen.Profile(consts=(A.const(2), A.const(0), A.const(1), A.const(1, 1)), w_pred=6, w_atom=2, w_ident=1,
                        w_quant=5, w_modal=4, max_depth=3)
 
+    fom_prof = gen.Profile(consts=(A.const(0), A.const(1)), w_atom=1, w_pred=8, w_ident=0, w_neg=4, w_assert=0, w_bin=3, w_modal=9, w_quant=9,
+                           max_depth=3, preds=((0, 0, 1), (1, 0, 1)))
     serial_prof = gen.Profile(w_atom=5, w_pred=0, w_ident=0, w_neg=4, w_assert=0, w_bin=3, w_modal=12, w_quant=0, max_depth=4, natoms=2).for_logic('D')
 
     @seed(shard['seed'] * 1000 + shard['shard'])
@@ -395,9 +398,15 @@ def run_proofs(shard, acc):
     def body(data):
         logic = names[data.draw(st.integers(0, len(names) - 1))]
         p = prof.for_logic(logic)
-        if data.draw(st.integers(0, 7)) == 0:
+        k = data.draw(st.integers(0, 7))
+        if k == 0:
             # D is the only logic with the Serial rule: give it its own share, with nested modal operators
             logic, p = 'D', serial_prof
+        elif k <= 3:
+            # quantifiers under modal operators, constants elsewhere on the branch: a witness must be new to the branch,
+            # not merely to the world it is introduced at
+            logic = data.draw(gen.logic_name(lambda n: R.is_modal(n) and R.is_quantified(n)))       # base logic first: one-off
+            p = fom_prof.for_logic(logic)                                                            # families get their share
         prem, con = data.draw(gen.argument(p, 3))
         case = prover.mk_case(logic, prem, con, order=data.draw(st.integers(0, 3)), max_steps=150)
         res, calls = check_proof(case)
@@ -409,6 +418,69 @@ def run_proofs(shard, acc):
     body()
 
 
+# ------------------------------------------------------------------ witness rules, one shape at a time
+
+def witness_shape_cases(name):
+    """Every quantifier shape (quantifier x negated x designation) on a hand-made branch where a constant already occurs,
+    in modal logics at ANOTHER world than the shape (a witness must be new to the branch, not to its world)."""
+    ds = (None,) if R.is_classical(name) else (True, False)
+    x = A.var(0)
+    for q in A.QUANTS:
+        for negated in (False, True):
+            core = ('Q', q, x, ('P', G2[:2] + (1,), (x,)))
+            s = A.neg(core) if negated else core
+            for d in ds:
+                for far in ((False, True) if R.is_modal(name) else (False,)):
+                    yield dict(logic=name, sentence=A.to_json(s), designated=d, far=far)
+
+
+def check_witness_shape(case):
+    from pytableaux.proof import Tableau, anode, sdwnode
+    from ..lib import get_logic
+    name = case['logic']
+    s = A.from_json(case['sentence'])
+    d = case['designated']
+    modal = R.is_modal(name)
+    prover.reseed(0)
+    get_logic(name)
+    tab = Tableau(get_logic(name))
+    b = tab.branch()
+    w_shape = (1 if case['far'] else 0) if modal else None
+    carrier_d = None if R.is_classical(name) else True
+    b.append(sdwnode(A.to_lib(('P', F1, (CONST['a'],))), carrier_d, 0 if modal else None))
+    if modal and case['far']:
+        b.append(anode(0, 1))
+    b.append(sdwnode(A.to_lib(s), d, w_shape))
+    desc = f'{name}: hand-made branch [Fa at w0{", 0R1" if case["far"] else ""}; {A.std(s)}{"" if d is None else (" +" if d else " -")} at w{w_shape}]'
+    out = []
+    steps = 0
+    try:
+        while steps < 40 and not tab.finished:
+            before = {}
+            for br in tab.open:
+                c, w = walk(br)
+                before[id(br)] = (len(br), c, w)
+            entry = tab.step()
+            if entry is None:
+                break
+            steps += 1
+            out += witness_violations(entry, before, desc)
+    except Exception:
+        pass
+    seen = set()
+    return [(fp, dd) for fp, dd in out if not (fp in seen or seen.add(fp))], steps
+
+
+def run_witness_shapes(shard, acc):
+    for name in shard['logics']:
+        for case in witness_shape_cases(name):
+            res, steps = check_witness_shape(case)
+            acc.case(('witness-shape', name, case['sentence'], case['designated'], case['far']), nontrivial=steps > 0,
+                     classes=('witness-shape',), sample=None)
+            for fp, d in res:
+                acc.finding(fp, dict(kind='witness-shape', **case), d)
+
+
 # ------------------------------------------------------------------ campaign
 
 def shards(tier, seed_):
@@ -418,22 +490,28 @@ def shards(tier, seed_):
     out += [dict(kind='exh', maxlen=maxlen, k=k, n=n) for k in range(n)]
     ns = 4 if tier == 'quick' else 16
     out += [dict(kind='sm', seed=seed_, shard=i, examples=150 if tier == 'quick' else 600) for i in range(ns)]
-    np_ = 8 if tier == 'quick' else 32
-    out += [dict(kind='proofs', seed=seed_, shard=i, examples=150 if tier == 'quick' else 500) for i in range(np_)]
+    qnames = [n for n in sorted(R.LOGICS) if R.is_quantified(n)]
+    out += [dict(kind='wshape', logics=qnames[i::8]) for i in range(8)]
+    np_ = 16 if tier == 'quick' else 32
+    out += [dict(kind='proofs', seed=seed_, shard=i, examples=300 if tier == 'quick' else 800) for i in range(np_)]
     return out
 
 
 def run_shard(shard, acc):
-    {'exh': run_exhaustive, 'sm': run_machine, 'proofs': run_proofs}[shard['kind']](shard, acc)
+    {'exh': run_exhaustive, 'sm': run_machine, 'proofs': run_proofs, 'wshape': run_witness_shapes}[shard['kind']](shard, acc)
 
 
 def replay(case):
     if case['kind'] == 'history':
         return run_history(case['ops'])
+    if case['kind'] == 'witness-shape':
+        return check_witness_shape(case)[0]
     return check_proof(case)[0]
 
 
 def shrink_candidates(case):
+    if case.get('kind') == 'witness-shape':
+        return
     if case['kind'] == 'history':
         ops = case['ops']
         for i in range(len(ops)):
